@@ -66,12 +66,13 @@ func b01(b bool) string {
 
 type repoState struct {
 	files   map[string]string
+	inplace map[string]bool // the last edit of that path was done in place (truncate + rewrite of the same inode)
 	targets map[string]*target
 	order   []string
 }
 
 func newState() *repoState {
-	return &repoState{files: map[string]string{}, targets: map[string]*target{}}
+	return &repoState{files: map[string]string{}, inplace: map[string]bool{}, targets: map[string]*target{}}
 }
 
 func (s *repoState) put(t *target) {
@@ -84,11 +85,12 @@ func (s *repoState) put(t *target) {
 func (s *repoState) apply(op string) bool {
 	f := strings.Split(op, " ")
 	switch f[0] {
-	case "file":
+	case "file", "filei":
 		if len(f) != 3 {
 			return false
 		}
 		s.files[f[1]] = lib.UnHex(f[2])
+		s.inplace[f[1]] = f[0] == "filei"
 	case "rmfile":
 		if len(f) != 2 {
 			return false
@@ -105,7 +107,7 @@ func (s *repoState) apply(op string) bool {
 				return false
 			}
 			t.Const = lib.UnHex(f[5])
-		case "cat", "catfirst", "mkdir":
+		case "cat", "catfirst", "mkdir", "fg":
 			if len(f) != 5 {
 				return false
 			}
@@ -281,21 +283,30 @@ func quoteList(xs []string) string {
 	return strings.Join(q, ", ")
 }
 
-func (r *realRepo) write(s *repoState) error {
-	ents, _ := os.ReadDir(r.root)
-	for _, e := range ents {
-		if e.Name() != "plz-out" {
-			os.RemoveAll(filepath.Join(r.root, e.Name()))
+// putFile brings one file of the working tree to the wanted contents: untouched when it already has them (the inode and
+// whatever hangs on it stay), otherwise rewritten IN PLACE (same inode: hard links into plz-out see the new bytes at
+// once, xattrs stay) or replaced by a rename (new inode), as the history says.
+func putFile(path string, content []byte, inplace bool) error {
+	if old, err := os.ReadFile(path); err == nil {
+		if string(old) == string(content) {
+			return nil
+		}
+		if inplace {
+			return os.WriteFile(path, content, 0o644)
 		}
 	}
-	if err := os.WriteFile(filepath.Join(r.root, ".plzconfig"), []byte("[cache]\ndir = "+r.cache+"\n"), 0o644); err != nil {
+	os.MkdirAll(filepath.Dir(path), 0o755)
+	tmp := path + ".tmp~"
+	if err := os.WriteFile(tmp, content, 0o644); err != nil {
 		return err
 	}
+	return os.Rename(tmp, path)
+}
+
+func (r *realRepo) write(s *repoState) error {
+	want := map[string][]byte{".plzconfig": []byte("[cache]\ndir = " + r.cache + "\n")}
 	for p, c := range s.files {
-		os.MkdirAll(filepath.Join(r.root, filepath.Dir(p)), 0o755)
-		if err := os.WriteFile(filepath.Join(r.root, p), []byte(c), 0o644); err != nil {
-			return err
-		}
+		want[p] = []byte(c)
 	}
 	byPkg := map[string][]string{}
 	for _, l := range s.order {
@@ -305,6 +316,10 @@ func (r *realRepo) write(s *repoState) error {
 		var b strings.Builder
 		for _, l := range ls {
 			t := s.targets[l]
+			if t.Kind == "fg" {
+				fmt.Fprintf(&b, "filegroup(name=%q, srcs=[%s], visibility=[\"PUBLIC\"])\n", nameOf(l), quoteList(t.Srcs))
+				continue
+			}
 			if !t.IsTest {
 				fmt.Fprintf(&b, "genrule(name=%q, srcs=[%s], outs=[%q], cmd=%q, visibility=[\"PUBLIC\"])\n",
 					nameOf(l), quoteList(t.Srcs), t.Out, r.buildCmd(t))
@@ -317,8 +332,36 @@ func (r *realRepo) write(s *repoState) error {
 			}
 			b.WriteString(")\n")
 		}
-		os.MkdirAll(filepath.Join(r.root, pkg), 0o755)
-		if err := os.WriteFile(filepath.Join(r.root, pkg, "BUILD"), []byte(b.String()), 0o644); err != nil {
+		want[filepath.Join(pkg, "BUILD")] = []byte(b.String())
+	}
+	// remove what is no longer part of the tree (never plz-out), then bring every wanted file up to date
+	filepath.Walk(r.root, func(p string, info os.FileInfo, err error) error {
+		if err != nil || p == r.root {
+			return nil
+		}
+		rel, _ := filepath.Rel(r.root, p)
+		if rel == "plz-out" {
+			return filepath.SkipDir
+		}
+		if !info.IsDir() {
+			if _, ok := want[rel]; !ok {
+				os.Remove(p)
+			}
+		}
+		return nil
+	})
+	for _, d := range []string{"p", "q"} { // directories that became empty must go (a data directory without files)
+		ents, _ := os.ReadDir(filepath.Join(r.root, d))
+		for _, e := range ents {
+			if e.IsDir() {
+				if sub, _ := os.ReadDir(filepath.Join(r.root, d, e.Name())); len(sub) == 0 {
+					os.Remove(filepath.Join(r.root, d, e.Name()))
+				}
+			}
+		}
+	}
+	for rel, c := range want {
+		if err := putFile(filepath.Join(r.root, rel), c, s.inplace[rel]); err != nil {
 			return err
 		}
 	}
@@ -641,7 +684,11 @@ func (g *gen) writeFile(p string) {
 	if strings.HasSuffix(p, "names.txt") {
 		c = lib.Pick(g.r, namesPool)
 	}
-	g.emit("file " + p + " " + hx(c))
+	if _, exists := g.s.files[p]; exists && g.r.Chance(50) {
+		g.emit("filei " + p + " " + hx(c)) // truncate + rewrite of the same inode
+		return
+	}
+	g.emit("file " + p + " " + hx(c)) // new file, or replaced by a rename (new inode)
 }
 
 func (g *gen) ensureFile(p string) {
@@ -693,8 +740,33 @@ func (g *gen) newGenrule() *target {
 	pkg := lib.Pick(g.r, []string{"p", "q", "p"})
 	name := fmt.Sprintf("g%d", g.n)
 	t := &target{Label: "//" + pkg + ":" + name, Out: name + ".out"}
+	if g.r.Chance(35) { // a filegroup over one source file: its output in plz-out is a HARD LINK of that file
+		f := lib.Pick(g.r, []string{"d.txt", "e.txt", "x.txt", "y.txt"})
+		taken := false
+		for _, l := range g.s.order {
+			if o := g.s.targets[l]; o.Kind == "fg" && pkgOf(l) == pkg && o.Out == f {
+				taken = true
+			}
+		}
+		if !taken {
+			g.ensureFile(pkg + "/" + f)
+			t.Kind, t.Srcs, t.Out = "fg", []string{f}, f
+			return t
+		}
+	}
 	g.fillGenrule(t)
 	return t
+}
+
+// fgSources: the source files that reach plz-out through a filegroup (hard links).
+func (g *gen) fgSources() []string {
+	var out []string
+	for _, l := range g.s.order {
+		if t := g.s.targets[l]; t.Kind == "fg" {
+			out = append(out, pkgOf(l)+"/"+t.Srcs[0])
+		}
+	}
+	return out
 }
 
 func (g *gen) fillGenrule(t *target) {
@@ -809,8 +881,12 @@ func (g *gen) randomData(t *target) {
 	seen := map[string]bool{}
 	var d []string
 	for _, x := range t.Data {
-		if !seen[x] {
-			seen[x] = true
+		dest := pkg + "/" + x // where the entry lands in the test directory
+		if isLabel(x) {
+			dest = pkgOf(x) + "/" + g.s.targets[x].Out
+		}
+		if !seen[dest] {
+			seen[dest] = true
 			d = append(d, x)
 		}
 	}
@@ -894,7 +970,18 @@ func (g *gen) tryEdit(run *lib.Run) bool {
 			return false
 		}
 		sort.Strings(paths)
-		g.writeFile(lib.Pick(g.r, paths))
+		pick := lib.Pick(g.r, paths)
+		if fs := g.fgSources(); len(fs) > 0 && g.r.Chance(50) {
+			pick = lib.Pick(g.r, fs)
+			run.Count("edit-file-behind-filegroup")
+		}
+		before := len(g.ops)
+		g.writeFile(pick)
+		if strings.HasPrefix(g.ops[before], "filei ") {
+			run.Count("edit-file-content-in-place")
+		} else {
+			run.Count("edit-file-content-by-rename")
+		}
 		run.Count("edit-file-content")
 		return true
 	case k == 3 || k == 4: // rename a file inside a data directory (same bytes)
@@ -970,6 +1057,9 @@ func (g *gen) tryEdit(run *lib.Run) bool {
 			cand = gr
 		}
 		d := clone(g.s.targets[lib.Pick(g.r, cand)])
+		if d.Kind == "fg" { // a filegroup's output name IS its source
+			return false
+		}
 		// always a name never used before: plz leaves the old output (with its stamp) in plz-out, so going BACK to an
 		// earlier name would legitimately find it up to date — a per-file memory the model does not keep
 		g.n++
@@ -979,6 +1069,9 @@ func (g *gen) tryEdit(run *lib.Run) bool {
 		return true
 	case (k == 14 || k == 15) && len(gr) > 0: // redefine a dependency; cat<->catfirst with one source rebuilds it to identical bytes
 		d := clone(g.s.targets[lib.Pick(g.r, gr)])
+		if d.Kind == "fg" {
+			return false
+		}
 		if (d.Kind == "cat" || d.Kind == "catfirst") && len(d.Srcs) == 1 {
 			d.Kind = map[string]string{"cat": "catfirst", "catfirst": "cat"}[d.Kind]
 			run.Count("edit-dep-rebuilt-identical")
@@ -1108,7 +1201,7 @@ func (g *gen) history(run *lib.Run, steps int) []string {
 	for st := 0; st < steps; st++ {
 		if st > 0 {
 			ne := g.r.Intn(3)
-			if g.r.Chance(15) {
+			if g.r.Chance(15) || (st == 1 && g.r.Chance(50)) { // often two runs on the first tree before anything changes
 				ne = 0
 			} else if ne == 0 {
 				ne = 1
@@ -1198,7 +1291,7 @@ func runHistory(idx int, ops []string, scratch, plz string) ([]result, []oracleF
 		switch f[0] {
 		case "reset":
 			res = append(res, result{op, "ok", false})
-		case "file", "rmfile", "target", "test", "deltarget":
+		case "file", "filei", "rmfile", "target", "test", "deltarget":
 			if !s.apply(op) {
 				res = append(res, result{op, "bad-op", false})
 				continue
